@@ -391,8 +391,11 @@ func (c *ClientConn) Closing(err error) {
 	c.closingMu.Lock()
 	c.closing = true
 	vhook("closing.set", c, c.pending)
-	c.pending.closing(err)
 	c.closingMu.Unlock()
+	// Notify pending requests after releasing the lock. No request can be added once `closing` is set and a notified
+	// request may be retried on another connection that is closing concurrently; holding both connections' locks
+	// while doing that can deadlock.
+	c.pending.closing(err)
 	vhook("closing.done", c)
 }
 
